@@ -12,6 +12,7 @@
   `ClosedMod pt ts` : the same after merging vertices by `pt`.
 -/
 import PolyVerif.Lemmas.Solids
+import PolyVerif.Lemmas.SolidsGeom
 import PolyVerif.Gen.CubeTable
 import Mathlib.Tactic
 
@@ -68,6 +69,54 @@ theorem quadTris_eq_table : quadTris = unflat Gen.CubeTable.quadIndices := by de
 
 /-- the box built from six quads is closed once its 24 vertices are merged into the 8 corners -/
 theorem cubeQuads_closed_mod_merge : ClosedMod cubeQuadsPt cubeQuadsTris := by decide
+
+/-! ## Outwardness (positions over ℝ: the real-number meaning of the constructors' expressions)
+
+`OutwardAt pos ctr ts`: every triangle of `ts`, with corners `pos`, has positive signed volume against `ctr`
+(its front side faces away from `ctr`).  Together with closedness this makes the surface the positively
+oriented boundary of a solid that is star-shaped about `ctr`. -/
+
+/-- **UV sphere faces point outward, all sizes, every radius `> 0`**: each fan / strip triangle has signed volume
+    `r³ · sin φ · sin(π/rows) · sin(2π/cols) / 6 > 0` against the centre. -/
+theorem uvSphere_outward {rows cols : Nat} {r : ℝ} (hr : 0 < r) (hR : 2 ≤ rows) (hC : 3 ≤ cols) :
+    OutwardAt (uvSpherePos r rows cols) O3 (uvSphereTris rows cols) :=
+  uvSphere_outward_aux hr hR hC
+
+example : OutwardAt (uvSpherePos (1 / 2 : ℝ) 2 3) O3 (uvSphereTris 2 3) :=
+  uvSphere_outward (by norm_num) (by decide) (by decide)
+
+/-- the unwelded sphere has the welded sphere's positions at the copied vertices, hence the same faces -/
+theorem uvSphereUnwelded_outward {rows cols : Nat} {r : ℝ} (hr : 0 < r) (hR : 2 ≤ rows) (hC : 3 ≤ cols) :
+    OutwardAt (uvUnweldedPos r rows cols) O3 (uvSphereUnweldedTris rows cols) := by
+  have h := uvSphere_outward hr hR hC
+  rw [← uvUnwelded_map_src, ← outwardAt_map] at h
+  exact h
+
+/-- **sphere normals** (`positions.Normalized()`) have positive dot product with the geometric normal of
+    every incident face -/
+theorem sphere_normals_outward {rows cols : Nat} {r : ℝ} (hr : 0 < r) (hR : 2 ≤ rows) (hC : 3 ≤ cols) :
+    NormalsOutward (uvSpherePos r rows cols) (uvSphereNormal r rows cols) (uvSphereTris rows cols) :=
+  normalsOutward_of_outward (uvSphere_outward hr hR hC)
+
+/-- **welded box faces point outward** for all `w, h, d > 0` (each of the 12 triangles of the regenerated
+    table has signed volume `w·h·d/12` against the centre) -/
+theorem cube_outward {w h d : ℝ} (hw : 0 < w) (hh : 0 < h) (hd : 0 < d) :
+    OutwardAt (cubeWeldedPos w h d) O3 cubeWeldedTris :=
+  cube_outward_aux hw hh hd
+
+/-- the welded box's positions are the regenerated sign table of cube.go times the half extents -/
+theorem cubeWeldedPos_eq_table : Gen.CubeTable.cubeVertSigns = (List.range 8).map cornerSign := by decide
+
+/-- **welded box normals** (`potentialVerts.Normalized()`, the corner directions) point to the outer side of every
+    incident face -/
+theorem cube_normals_outward {w h d : ℝ} (hw : 0 < w) (hh : 0 < h) (hd : 0 < d) :
+    NormalsOutward (cubeWeldedPos w h d) (cubeWeldedNormal w h d) cubeWeldedTris :=
+  normalsOutward_of_outward (cube_outward hw hh hd)
+
+/-- **six-quad box faces point outward** (exact-form positions: each vertex at its corner) -/
+theorem cubeQuads_outward {w h d : ℝ} (hw : 0 < w) (hh : 0 < h) (hd : 0 < d) :
+    OutwardAt (cubeQuadsPos w h d) O3 cubeQuadsTris :=
+  cubeQuads_outward_aux hw hh hd
 
 end C18
 end PolyVerif
